@@ -114,6 +114,11 @@ def regress_behaviours():
         [S(0, "H"), S(1, "H"), S(2, "A"), I(0, 1), S(0, "B"), S(1, "A"), O, I(2), S(2, "H"), O],
         [S(2, "A"), S(0, "H"), S(1, "B"), S(2, "H"), I(0), I(2), S(0, "A"), I(1), S(1, "H"), T(True), O],
         [S(0, "H"), S(0, "H"), S(0, "H"), I(0), S(1, "A"), O, S(0, "B")],
+        # the Store that compacts also REPLACES a record that the compaction moves (it sits behind the first free region),
+        # and another live record ends up where the replaced one was
+        [S(0, "H"), S(1, "A"), S(2, "H"), S(0, "H"), I(2), S(1, "B"), O, S(2, "A"), O],
+        [S(0, "H"), S(1, "A"), S(2, "H"), S(0, "H"), I(2), S(0, "B"), O, S(2, "B")],
+        [S(1, "H"), S(0, "A"), S(2, "H"), S(1, "H"), S(2, "B"), S(0, "B"), S(1, "A"), O],
     ]
     return [("regress", b) for b in small] + [("huge", b) for b in huge]
 
